@@ -55,7 +55,7 @@ def run_impl(c, memo=None, rule=None, pred_cls=Pred):
     import cellpylib as cpl
     ca = make_ca(c)
     snapshot = ca.tobytes()
-    rule = rule or Rule(c["rule"], c.get("scale", 1), clobber=bool(c.get("clobber")), mixret=bool(c.get("mixret")))
+    rule = rule or Rule(c["rule"], c.get("scale", 1), clobber=bool(c.get("clobber")), mixret=c.get("mixret") or False)
     pred = None
     if "T" in c:
         ts = c["T"]
